@@ -50,6 +50,7 @@ func C04(c *Ctx) {
 	c.R.Rule("C04-R5", "E5", "target resolved from the resulting bindings", 1)
 	c.R.Rule("C04-R6", "E3", "only the matcher and the guard decide a branch", 2)
 	c.R.Rule("C04-R8", "E3", "a script that returns an object yields non-nil bindings (an accepting guard is not read as a rejecting one)", 1)
+	c.shareRule("C13", "C13-R2", "C04-R15", "the action and guards that run are the node's own sources, each compiled (by the interpreter it names)")
 	c.shareRule("C02", "C02-R8", "C04-R12", "a state without bindings is stepped like one with empty bindings: the branches' patterns are matched from a non-nil copy")
 	c.shareRule("C15", "C15-R6", "C04-R13", "what an action or guard answers depends on the bindings and message of this step only: no script runtime survives from an earlier execution")
 	c.shareRule("C02", "C02-R4", "C04-R14", "the pattern of a branch is matched against the whole message: members of an array that were not consumed stay available (merged under fresh indexes)")
